@@ -130,7 +130,43 @@ func genInt(rng *rand.Rand) c17case {
 	return c
 }
 
+// genFloatMidpoint writes a literal that lies a hair above (or below) the exact midpoint of two adjacent float64
+// values: the nearest float is decided by that hair, which any rounding through an intermediate precision loses.
+func genFloatMidpoint(rng *rand.Rand) c17case {
+	c := c17case{kind: "float", form: "midpoint-plus-epsilon"}
+	// a float in [1, 2^20) with a random mantissa
+	f := math.Float64frombits(uint64(1023+rng.Intn(20))<<52 | uint64(rng.Int63())&(1<<52-1))
+	next := math.Nextafter(f, math.Inf(1))
+	mid := new(big.Float).SetPrec(200).SetFloat64(f)
+	mid.Add(mid, new(big.Float).SetPrec(200).SetFloat64(next))
+	mid.Quo(mid, big.NewFloat(2))
+	txt := mid.Text('f', 80) // exact: a midpoint of doubles below 2^20 has at most 53+20 fractional bits
+	txt = strings.TrimRight(txt, "0")
+	if !strings.Contains(txt, ".") {
+		txt += ".0"
+	}
+	if rng.Intn(2) == 0 {
+		c.src = txt + "000000001" // above the midpoint
+	} else {
+		// below the midpoint: decrement the last digit and append nines
+		b := []byte(txt)
+		i := len(b) - 1
+		for b[i] == '0' || b[i] == '.' {
+			i--
+		}
+		b[i]--
+		c.src = string(b) + "999999999"
+		c.form = "midpoint-minus-epsilon"
+	}
+	f2, _ := strconv.ParseFloat(c.src, 64)
+	c.wantFloat = f2
+	return c
+}
+
 func genFloat(rng *rand.Rand) c17case {
+	if rng.Intn(4) == 0 {
+		return genFloatMidpoint(rng)
+	}
 	c := c17case{kind: "float"}
 	digits := func(n int) string {
 		var b strings.Builder
